@@ -38,7 +38,10 @@ tIvMax1 == <<50, 53, 54, 50, 48, 52, 55, 55, 56, 56, 48, 49, 53, 58, 49, 50, 58,
 tIvSecs == <<48, 58, 48, 58, 57, 50, 50, 51, 51, 55, 50, 48, 51, 54, 56, 53, 52, 55, 55, 53, 56, 48, 55>>
 tIvNeg == <<45, 49, 58, 45, 50, 58, 45, 51>>
 tIv4 == <<49, 58, 50, 58, 51, 58, 52>>
-Texts == {tIvHuge, tIvMax1, tIvSecs, tIvNeg, tIv4, <<>>, t12, tNeg3, tPlus5, tPad7, t15, tAbc, tTrue, tTs, tTsBad, tIv, tSpX, tSpE, tE, tCjk, MaxText, MaxPlus1Text, MinText, LongDigits, U32WrapText}
+tNbsp == <<160, 120, 121, 8195>>                \* NO-BREAK SPACE x y EM SPACE
+tIdeo == <<12288, 122, 133, 32>>                \* IDEOGRAPHIC SPACE z NEL SPACE
+tRare == <<304, 223, 8490, 64257>>              \* I WITH DOT ABOVE, sharp s, KELVIN SIGN, fi ligature (letters whose case forms have other lengths)
+Texts == {tNbsp, tIdeo, tRare, tIvHuge, tIvMax1, tIvSecs, tIvNeg, tIv4, <<>>, t12, tNeg3, tPlus5, tPad7, t15, tAbc, tTrue, tTs, tTsBad, tIv, tSpX, tSpE, tE, tCjk, MaxText, MaxPlus1Text, MinText, LongDigits, U32WrapText}
 GStates == {NoGroup} \cup {G(x) : x \in Texts}
 
 Groups7(g1, g2, g3) == Match(<<g1, g2, g3, NoGroup, NoGroup, NoGroup, NoGroup>>)
